@@ -177,6 +177,20 @@ theorem terminates_under_bound (P : Program) (hP : NoReset P) (S : Scheduler σ)
       ⟨LoopInv.init P ms seed s, BoundInv.init hP ms seed s n⟩
   exact this.2.final hb hi hf
 
+/-- … so the recorded schedule contains at most `n` `.task` steps (its `.random` steps are not bounded, see
+`steps_overshoot_witness`) … -/
+theorem task_steps_le_bound (P : Program) (hP : NoReset P) (S : Scheduler σ) (ms : MaxSteps) (n : Nat)
+    (hb : boundOf ms = some n) (seed : Nat) (s : σ) (fuel segFuel : Nat) :
+    taskCount (execute P S ms seed s fuel segFuel).st.k.schedule_ ≤ n := by
+  have h1 := terminates_under_bound P hP S ms n hb seed s fuel segFuel
+  have h2 := taskCount_logSteps_le (execute P S ms seed s fuel segFuel).st.log.toList
+  obtain ⟨stf, _, hi, hf⟩ := execute_final P S ms seed s fuel segFuel
+  rcases hf.record hi with h | ⟨_, _, h⟩
+  · rw [h]; omega
+  · rw [h, taskCount_append]
+    have : taskCount [SStep.random] = 0 := rfl
+    omega
+
 /-- … hence the loop performs at most `n` continuing iterations, and `n + 1` units of loop fuel always suffice:
 the result is produced by a terminal iteration (`outOfFuel` can then only come from the segment fuel). -/
 theorem terminates_under_bound_iterations (P : Program) (hP : NoReset P) (S : Scheduler σ) (ms : MaxSteps)
